@@ -605,6 +605,28 @@ theorem C03_history_clean_restart {s₀ : St} {dir : String} {cfg : Cfg} {U₀ :
     rw [e4 hnl, List.take_length] at e3
     exact ⟨e1, e3⟩
 
+/-- **clean restart, fresh database**: any history from the freshly opened database (it may end
+    with a batch open, partly flushed, or abandoned), then `Close` and `Open` under any valid
+    configuration: `Open` succeeds and exposes the mapping of ALL acknowledged units — nothing of an
+    uncommitted batch, everything of every committed one. -/
+theorem C03_history_restart (dir : String) (cfg cfg' : Cfg) (hcfg : cfg.Valid) (hcfg' : cfg'.Valid)
+    (ops : List AOp) (hok : ∀ op ∈ ops, AOpOK op) (hids : IdsOK (openDB St.init dir cfg).1 h0 ops) :
+    (openDB (close (arun (openDB St.init dir cfg).1 ops)).1 dir cfg').2 = .ok ∧
+    ∃ db', (openDB (close (arun (openDB St.init dir cfg).1 ops)).1 dir cfg').1.db = some db' ∧
+      ∀ k, absGet (openDB (close (arun (openDB St.init dir cfg).1 ops)).1 dir cfg').1 db' k
+        = specOfUnits (unitsOf (openDB St.init dir cfg).1 ops) k := by
+  have hg := Good_fresh dir cfg hcfg
+  have hnm : (arun (openDB St.init dir cfg).1 ops).world.get (mergeDirName dir) = none := by
+    obtain ⟨e0, e1, _, _, _, _⟩ := fresh_start dir cfg hcfg
+    rw [e0]
+    obtain ⟨hfr, _⟩ := arun_frame ops e1
+    rw [hfr (mergeDirName dir) (Restart.mergeDirName_ne dir)]
+    have := Engine.mergeDirName_ne dir
+    simp [freshSt, World.get, this]
+  obtain ⟨h1, h2⟩ := C03_history_clean_restart hg ops hok hids cfg' hcfg' hnm
+  rw [List.nil_append] at h2
+  exact ⟨h1, h2.abs⟩
+
 /-- epochs: each is a history followed by a crash (`sc`, directories `d` / `dc` before / after)
     and `Open` under `cfg'` -/
 structure Epoch where
@@ -1008,5 +1030,9 @@ info: 'XixiKV.C03H.C03_history_clean_restart' depends on axioms: [propext, Class
 info: 'XixiKV.C03H.C03_history_before_sync' depends on axioms: [propext, Classical.choice, Quot.sound]
 -/
 #guard_msgs in #print axioms C03_history_before_sync
+/--
+info: 'XixiKV.C03H.C03_history_restart' depends on axioms: [propext, Classical.choice, Quot.sound]
+-/
+#guard_msgs in #print axioms C03_history_restart
 
 end XixiKV.C03H
